@@ -760,7 +760,7 @@ class ConcInputs(_Base):
         return bytes(self._get(_akey(name, (n,)), [0] * n))
 
     def date(self, name: str, lo: int = 0, hi: int = 2**31 - 1):
-        return _rdt.datetime.fromtimestamp(int(self._get(name, max(lo, 1_000_000_000))))
+        return _rdt.datetime.fromtimestamp(int(self._get(name, max(lo, min(hi, 1_000_000_000)))))
 
     def payload(self, name: str, size):
         vals = list(self._get(name, []))
